@@ -121,7 +121,13 @@ private:
       ++iterations;
       for (unsigned i = 0, e = order.size(); i < e; ++i) {
         auto const &n = order[i];
-        auto out = (i == 0 ? m_analysis.entry() : killgen_domain_t::bottom());
+        // The boundary value belongs to the exit block. It is not
+        // necessarily the first block of the order: a block without
+        // successors that does not reach the exit can come first.
+        const bool is_boundary =
+            (m_cfg.has_exit() ? (n == m_cfg.exit()) : (i == 0));
+        auto out =
+            (is_boundary ? m_analysis.entry() : killgen_domain_t::bottom());
         for (auto const &p : m_cfg.next_nodes(n))
           out = m_analysis.merge(out, m_in_map[p]);
         auto old_in = m_in_map[n];
